@@ -90,7 +90,7 @@ func bigTTLs(maxTTL int64) []int64 {
 }
 
 type ment struct {
-	beyond bool   // effective TTL not representable as a time.Duration: observed, not judged
+	beyond bool   // effective TTL above 9223372036 s (not representable as a time.Duration): live for as far as the clock can go
 	state  string // set | deleted | reset
 	val    string
 	setAt  time.Duration
@@ -382,11 +382,9 @@ func genSeq(rng *mon.RNG, mode string) seqPlan {
 		case r < 30:
 			ttl := int64(rng.Range(1, 8))
 			if rng.Chance(1, 6) {
-				// large and huge TTLs; stay where the effective TTL is representable (see bigttl scripts for the rest)
+				// large and huge TTLs, capped or not
 				c := bigTTLs(pl.maxTTL)
-				if t := c[rng.Intn(len(c))]; b.md.eff(t) <= maxDurSec {
-					ttl = t
-				}
+				ttl = c[rng.Intn(len(c))]
 			}
 			b.set(key(), ttl)
 		case r < 46:
@@ -515,20 +513,6 @@ func runSeqV[V comparable](t *testing.T, idx int, pl seqPlan, enc func(n int) V)
 			raw, ok := c.Get(key)
 			got := labelOf(raw, ok)
 			e := md.m[key]
-			if e != nil && e.state == "set" && e.beyond {
-				// effective TTL beyond the Duration range: kit's own ttl*time.Second wraps; observed only
-				res := "miss"
-				if ok {
-					res = "hit"
-				}
-				age := "right_after_set"
-				if md.now > e.setAt {
-					age = "later"
-				}
-				rec.Count(fmt.Sprintf("seq.ttl_beyond_duration.eff=%d.%s_%s", e.eff, res, age), 1)
-				logf("%s get(%q) -> %q,%v (effective ttl %d s is beyond time.Duration: not judged)", site, key, got, ok, e.eff)
-				return got, ok
-			}
 			want := md.live(key)
 			label := "get"
 			if site != "get" {
@@ -569,6 +553,11 @@ func runSeqV[V comparable](t *testing.T, idx int, pl seqPlan, enc func(n int) V)
 				if e.exp-md.now == 1 {
 					shape += "/1ns-before-expiry"
 				}
+				if e.beyond {
+					// effective TTL above 9223372036 s: not representable as a time.Duration, must be
+					// clamped (about 292 years), never wrapped - the clock cannot get there, so: a hit
+					shape += "/ttl-beyond-duration"
+				}
 				w.violation(pre+shape, fmt.Sprintf("Get(%q) at %s missed; reference holds %q set at %s ttl=%d (effective %d) expiring at %s", key, fmtD(md.now), e.val, fmtD(e.setAt), e.ttl, e.eff, fmtD(e.exp)))
 			case ok:
 				hits++
@@ -593,6 +582,21 @@ func runSeqV[V comparable](t *testing.T, idx int, pl seqPlan, enc func(n int) V)
 					}
 				} else if e.ttl >= 1<<31 && e.eff == e.ttl {
 					rec.Count("seq.large_ttl_uncapped.hits", 1)
+				}
+				if e.beyond {
+					sc := sinceSet[key]
+					switch {
+					case md.now == e.setAt:
+						rec.Count("seq.ttl_beyond_duration.hits_right_after_set", 1)
+					case md.now-e.setAt >= (1<<31)*sec:
+						rec.Count("seq.ttl_beyond_duration.hits_68_years_later", 1)
+					}
+					if sc != nil && sc.withExpired+sc.nothingExpired > 0 {
+						rec.Count("seq.ttl_beyond_duration.hits_after_manual_cleanup", 1)
+					}
+					if sc != nil && sc.ticks > 0 {
+						rec.Count("seq.ttl_beyond_duration.hits_after_periodic_cleanup", 1)
+					}
 				}
 				if sc := sinceSet[key]; key == "" && sc != nil {
 					if sc.withExpired > 0 {
@@ -711,9 +715,6 @@ func runSeqV[V comparable](t *testing.T, idx int, pl seqPlan, enc func(n int) V)
 					rawv, ok := c.Get(k)
 					v := labelOf(rawv, ok)
 					bf := before[k]
-					if e := md.m[k]; e != nil && e.state == "set" && e.beyond {
-						continue
-					}
 					logf("post-cleanup get(%q) -> %q,%v", k, v, ok)
 					rec.Count("seq.cleanup.probed_pairs", 1)
 					if e := md.m[k]; e != nil && e.state == "set" {
